@@ -120,7 +120,9 @@ Bodies == /\ Live("bodies")
                     \o (IF ClientMode /\ Tapped /\ Is(s.reqHead) /\ ~EncRefused(s.stim) /\ ~LimitHit(s.stim) THEN   \* a refused request's body is never read
                            << <<"C03.RequestBodyIsTheMessages", BodyCarries(E.req.bytes, E.req.frames, s.stim.req.msgs, s.stim.client.send)>>,
                               <<"C05.ClientCompressesAsConfigured", IF s.stim.client.send = "" THEN NoneFlagged(E.req.bytes) ELSE AllFlagged(E.req.bytes)>>,
-                              <<"C05.CompressedWithAnnouncedEncoding", FlaggedDecode(E.req.bytes, E.req.frames, s.stim.client.send)>> >>
+                              <<"C05.CompressedWithAnnouncedEncoding", FlaggedDecode(E.req.bytes, E.req.frames, s.stim.client.send)>>,
+                              \* ... "announced" read off the wire: the grpc-encoding the request head actually carries
+                              <<"C03.RequestCompressedAsAnnounced", FlaggedDecode(E.req.bytes, E.req.frames, RawReqEnc(s.reqHead.list))>> >>
                         ELSE <<>>)
                     \o (IF ClientMode /\ Tapped /\ Is(s.respHead) /\ ~EncRefused(s.stim) /\ ~LimitHit(s.stim) THEN
                            ResponseClauses(s.stim, s.respHead.status, s.respHead.list, E.resp.bytes, E.resp.frames, s.respTrs, off)
